@@ -188,11 +188,17 @@ func (p *printer) expr1(n *Node, minPrec int, rightOperand bool) string {
 		for i, kv := range n.C {
 			parts[i] = kv.S + ": " + p.expr(kv.C[0], 0, false)
 		}
+		if p.st.MultiLine && len(parts) > 0 {
+			return "{\n" + strings.Join(parts, ",\n") + "\n}"
+		}
 		return "{" + strings.Join(parts, ", ") + "}"
 	case "arr":
 		parts := make([]string, len(n.C))
 		for i, e := range n.C {
 			parts[i] = p.expr(e, 0, false)
+		}
+		if p.st.MultiLine && len(parts) > 0 {
+			return "[\n" + strings.Join(parts, ",\n") + "\n]"
 		}
 		return "[" + strings.Join(parts, ", ") + "]"
 	case "call":
